@@ -2,6 +2,7 @@ use super::{
     constants::{NANOS_PER_DAY, NANOS_PER_SEC},
     time::convert::{days_nanos_to_nanos, nanos_to_days_nanos},
 };
+use crate::errors::AstrolabeError;
 
 /// Adds a given offset to nanoseconds
 pub(crate) fn add_offset_to_nanos(nanoseconds: u64, offset: i32) -> u64 {
@@ -30,4 +31,15 @@ pub(crate) fn remove_offset_from_dn(days: i32, nanoseconds: u64, offset: i32) ->
     let mut nanos = days_nanos_to_nanos(days, nanoseconds);
     nanos -= offset as i128 * NANOS_PER_SEC as i128;
     nanos_to_days_nanos(nanos).unwrap()
+}
+
+/// Removes a given offset from days and nanoseconds. Returns an OutOfRange error if the result is not representable.
+pub(crate) fn try_remove_offset_from_dn(
+    days: i32,
+    nanoseconds: u64,
+    offset: i32,
+) -> Result<(i32, u64), AstrolabeError> {
+    let mut nanos = days_nanos_to_nanos(days, nanoseconds);
+    nanos -= offset as i128 * NANOS_PER_SEC as i128;
+    nanos_to_days_nanos(nanos)
 }
